@@ -225,7 +225,14 @@ where
             let found_any = res_vec.into_iter().any(|e| e.found_any);
             (ConvertResult { expr, found_any }, errs.concat())
         }
-        Expr::RecordLiteral(fields) => {
+        Expr::RecordLiteral(fields) | Expr::ImcompleteRecord(fields) => {
+            // `{a = e, ..}` is rebuilt as the incomplete record it was
+            let rebuild: fn(Vec<RecordField>) -> Expr =
+                if matches!(e_id.to_expr(), Expr::ImcompleteRecord(_)) {
+                    Expr::ImcompleteRecord
+                } else {
+                    Expr::RecordLiteral
+                };
             let (res_vec, errs): (Vec<_>, Vec<_>) = fields
                 .into_iter()
                 .map(|f| {
@@ -242,8 +249,7 @@ where
                     )
                 })
                 .unzip();
-            let expr = Expr::RecordLiteral(res_vec.clone().into_iter().map(|e| e.0).collect())
-                .into_id(loc);
+            let expr = rebuild(res_vec.clone().into_iter().map(|e| e.0).collect()).into_id(loc);
             let found_any = res_vec.into_iter().any(|f| f.1);
             (ConvertResult { expr, found_any }, errs.concat())
         }
